@@ -55,14 +55,21 @@ JudgeHay(r, hi, which) ==
       bt == SearchBT(P, B, 0, Acc0)
       pv == SearchPV(P, B, 0, Acc0)
       obs == r.bfirst[hi]
-      \* A machine run that spends its fuel decides nothing (an exponential search on a long haystack
-      \* needs more steps than TLC is given here; whether the *engine* terminates is C05's question,
-      \* answered by its step measurements, the state-space exploration and the engine's own fuel):
-      \* that machine's result is then not compared.
-      btout == "Fuel" \in bt.bad
-      pvout == "Fuel" \in pv.bad
+      \* A machine run that spends its fuel decides nothing when the search is legitimately long (an
+      \* exponential search on a long haystack needs more steps than TLC is given here; whether the
+      \* *engine* terminates is C05's question): that machine's result is then not compared.  But the
+      \* machine's search is a part of the engine's whole iteration from offset 0, whose steps the hook
+      \* counted (esteps: bt_opt, depth, pv_opt, depth, bt_noopt, depth, pv_noopt, depth; -1 = did not
+      \* finish): a machine that spends more fuel than the engine took altogether has left the engine's
+      \* behaviour, and that is reported.
+      es == IF "esteps" \in DOMAIN r /\ Len(r.esteps) = Len(r.hays) THEN r.esteps[hi] ELSE <<-1, -1, -1, -1, -1, -1, -1, -1>>
+      ebt == IF which = "opt" THEN es[1] ELSE es[5]
+      epv == IF which = "opt" THEN es[3] ELSE es[7]
+      btout == "Fuel" \in bt.bad /\ ~(ebt >= 0 /\ ebt < Fuel)
+      pvout == "Fuel" \in pv.bad /\ ~(epv >= 0 /\ epv < Fuel)
   IN [bt |-> bt, pv |-> pv, obs |-> obs, fuelouts |-> (IF btout THEN 1 ELSE 0) + (IF pvout THEN 1 ELSE 0),
-      ok |-> (btout \/ bt.res = obs) /\ (pvout \/ pv.res = obs) /\ bt.bad \ {"Fuel"} = {} /\ pv.bad \ {"Fuel"} = {}]
+      ok |-> (btout \/ (bt.res = obs /\ "Fuel" \notin bt.bad)) /\ (pvout \/ (pv.res = obs /\ "Fuel" \notin pv.bad))
+             /\ bt.bad \ {"Fuel"} = {} /\ pv.bad \ {"Fuel"} = {}]
 
 Mismatches(r) ==
   UNION { { [kind |-> "vm", id |-> r.rid, h |-> hi - 1, prog |-> which,
